@@ -608,31 +608,48 @@ def replay(cex):
             run_paths(c, ob, site_of(c))
             bad = [x['obligation'] for x in ob.sat if x.get('structural')]
             return cex['obligation'] in bad, 'failing facts on replay: %r' % bad[:5]
-        s_, d_ = block.wirevector_by_name[cex['src']], block.wirevector_by_name[cex['dst']]
-        got = analysis.paths(s_, d_, block=block)[s_][d_]
-        missing, extra, nets = smt_paths(block, s_, d_, got)
-        # independent confirmation by a plain depth-first enumeration of simple net paths
-        found = []
+        def one(block, s_, d_):
+            got = analysis.paths(s_, d_, block=block)[s_][d_]
+            # independent confirmation by a plain depth-first enumeration of simple net paths
+            found = []
 
-        def dfs(w, path):
-            for n in block.logic:
-                if any(a is w for a in n.args) and all(n is not p for p in path):
-                    if n.op == '@':
-                        for r in block.logic:
-                            if r.op == 'm' and r.op_param[1] is n.op_param[1] and all(r is not p for p in path):
-                                if r.dests[0] is d_:
-                                    found.append(path + [n, r])
-                                dfs(r.dests[0], path + [n, r])
-                    else:
-                        if n.dests[0] is d_:
-                            found.append(path + [n])
-                        if n.dests[0] is not s_:
-                            dfs(n.dests[0], path + [n])
-        dfs(s_, [])
-        gotset = set(tuple(id(n) for n in p) for p in got)
-        miss = [p for p in found if tuple(id(n) for n in p) not in gotset]
-        return bool(miss), 'paths(%s, %s) returned %d path(s); simple net path(s) not returned: %s' % (
-            s_.name, d_.name, len(got), [[str(n).strip() for n in p] for p in miss[:2]])
+            def dfs(w, path):
+                for n in block.logic:
+                    if any(a is w for a in n.args) and all(n is not p for p in path):
+                        if n.op == '@':
+                            for r in block.logic:
+                                if r.op == 'm' and r.op_param[1] is n.op_param[1] and all(r is not p for p in path):
+                                    if r.dests[0] is d_:
+                                        found.append(path + [n, r])
+                                    dfs(r.dests[0], path + [n, r])
+                        else:
+                            if n.dests[0] is d_:
+                                found.append(path + [n])
+                            if n.dests[0] is not s_:
+                                dfs(n.dests[0], path + [n])
+            dfs(s_, [])
+            gotset = set(tuple(id(n) for n in p) for p in got)
+            miss = [p for p in found if tuple(id(n) for n in p) not in gotset]
+            return bool(miss), 'paths(%s, %s) returned %d path(s); simple net path(s) not returned: %s' % (
+                s_.name, d_.name, len(got), [[str(n).strip() for n in p] for p in miss[:2]])
+        # what paths() returns may depend on the order in which the block's sets are walked, which differs from process to
+        # process: the pair of the counterexample first, then the other (src, dst) pairs, on a few fresh builds
+        text = ''
+        for attempt in range(4):
+            if attempt:
+                block = designs.build(c)
+                if c.get('form') == 'copy':
+                    block = pyrtl.copy_block(block, update_working_block=True)
+            by = block.wirevector_by_name
+            srcs = sorted(block.wirevector_subset((pyrtl.Input, pyrtl.Register)), key=lambda w: w.name)
+            dsts = sorted(block.wirevector_subset((pyrtl.Output, pyrtl.Register)), key=lambda w: w.name)
+            pairs = [(by[cex['src']], by[cex['dst']])] + [(x, y) for x in srcs for y in dsts if (x.name, y.name) != (cex['src'], cex['dst'])]
+            for s_, d_ in pairs:
+                bad, t_ = one(block, s_, d_)
+                text = text or t_
+                if bad:
+                    return True, t_
+        return False, text
     if c['k'] == 'max_freq':
         L = cex.get('L')
         if not isinstance(L, (int, float)):
